@@ -685,6 +685,40 @@ func estRst(r *gen.Rng, out *bufio.Writer, kinds map[string]int) {
 	fmt.Fprintf(out, "CEstRst %s %s %s %d\n", netx.B(inw), coqSeg(t), coqFrames(fr), st.EState)
 }
 
+// established connection + keepalive enabled + silent peer: after count unanswered probes (pure
+// ACKs with sequence number sndNxt-1) the connection is abandoned: the peer is reset (RST|ACK) and
+// the endpoint ends in the error state.  (A repair of finding F16 once suppressed this reset too:
+// the keepalive time-out reports the same error code as a received RST.)
+func estKeepalive(r *gen.Rng, out *bufio.Writer, kinds map[string]int) {
+	cfg := tcpx.Cfg{PeerWnd: 30000, PeerWS: -1, PeerMSS: 100}
+	cfg.ISS, cfg.IRS = seqChoices[r.Intn(len(seqChoices))], seqChoices[r.Intn(len(seqChoices))]
+	c, err := tcpx.Dial(cfg)
+	if err != nil {
+		fmt.Fprintf(out, "# estKeepalive: dial failed: %v\n", err)
+		return
+	}
+	defer c.EP.Close()
+	count := 1 + r.Intn(3)
+	c.EP.SetSockOpt(tcpip.KeepaliveIdleOption(15 * time.Millisecond))
+	c.EP.SetSockOpt(tcpip.KeepaliveIntervalOption(15 * time.Millisecond))
+	c.EP.SetSockOpt(tcpip.KeepaliveCountOption(count))
+	c.EP.SetSockOpt(tcpip.KeepaliveEnabledOption(1))
+	kinds["e-keepalive"]++
+	var fr []netx.TCPSeg
+	dl := time.Now().Add(5 * time.Second)
+	for time.Now().Before(dl) {
+		fr = append(fr, c.Frames()...)
+		if len(fr) > 0 && fr[len(fr)-1].Flags&netx.FlagRst != 0 {
+			break
+		}
+		time.Sleep(2 * time.Millisecond)
+	}
+	time.Sleep(5 * time.Millisecond)
+	fr = append(fr, c.Frames()...)
+	st := c.Snap()
+	fmt.Fprintf(out, "CKeepalive %d %d %d %s %d\n", count, c.ISS, c.IRS, coqFrames(fr), st.EState)
+}
+
 func main() {
 	log.SetOutput(io.Discard)
 	seed := flag.Uint64("seed", 1, "seed")
@@ -711,6 +745,9 @@ func main() {
 		default:
 			w.oddListen(out, kinds)
 			estRst(r, out, kinds)
+			if i%20 == 9 {
+				estKeepalive(r, out, kinds)
+			}
 		}
 	}
 	fmt.Fprintf(out, "# event kinds: %v\n", kinds)
